@@ -1,6 +1,12 @@
 import os, re
 import runner as R
 from props import *
+import C10_gen
+
+# the connectors of Share / ShareReplay / the connectable observable ARE the subjects: the premise 'a connector is a lock-atomic object
+# that follows its definition' is C10's lock skeleton theorem (RoProps/C10: subjects_wellLocked over the regenerated SubjectLocks) and the
+# regenerated step functions (RoProps/C10gen); a subject whose Subscribe / Next leaves its critical section breaks them
+LEAN_MODULES = ['C11', 'C10'] + C10_gen.LEAN_MODULES
 
 MANIFEST = dict(
     text="Lean theorems over a line-by-line transition system of ShareWithConfig (regions R1/R2/R3/T, minimal publish/behavior/replay connectors) and of the "
@@ -136,8 +142,10 @@ def check(ctx):
         late += _race_run(ctx, [ctx.seed, ctx.seed + 100])
     if late:
         ctx.notes.append(f'late release also observed by the concurrent search in {late} case(s) (live-after-all-left with ti > 0)')
+    gen = C10_gen.parts(ctx)
     return dict(
-        rule='share: every event sequence of length <= 5 (quick) / 7 (thorough) over {S, U0..U2, N, E, C} with U only naming existing subscribers x 8 flag sets x '
+        search=gen['search'],
+        rule='premise: ' + gen['rule_part'] + ' || share: every event sequence of length <= 5 (quick) / 7 (thorough) over {S, U0..U2, N, E, C} with U only naming existing subscribers x 8 flag sets x '
              '{publish, behavior, replay1, replay2} (+ replay0, replayU in thorough) over a hot probe; the same to length 4 / 5 x 11 synchronous prefix lists; the aliases Share, ShareReplay, '
              'ShareReplayWithConfig; seeded longer sequences (<= 6 subscribers, 7 connectors). sharet: every prefix over {S,U,N} of length <= 3 / 4 x terminal C / E with subscriber k re-subscribing inside its terminal callback x 8 tails x the flag sets that reset on that terminal x {publish, replay1, behavior}. conn: every sequence of length <= 5 / 7 over {S, U0, U1, N, E, C, K, D} x 3 connectors x '
              'ResetOnDisconnect, synchronous prefixes, seeded. Compared: ALL result fields (every trace, live/total after each event, same-subscription flags, drops, unhandled, escaped). '
